@@ -247,6 +247,13 @@ def h_molweight(ctx, symbols):
     byz = {PT.index(s) + 1: n for s, n in zip(symbols, counts) if (PT.index(s) + 1) in c.atomic_weight}
     if len(byz) == len(symbols):
         ctx.eq('molar mass by atomic number = by symbol', get_molecular_weight(byz), want)
+    # a second composition of the same elements in the same process: nothing may be carried over from the first call
+    counts2 = [ctx.real('m_%s' % s, 0, 999) for s in symbols]
+    want2 = 0
+    for s, n in zip(symbols, counts2):
+        want2 = want2 + n * c.atomic_weight[s]
+    ctx.eq('second composition of the same elements: molar mass = sum count x weight', get_molecular_weight(dict(zip(symbols, counts2))), want2)
+    ctx.eq('first composition again', get_molecular_weight(dict(zip(symbols, counts))), want)
 
 
 def h_molweight_formula(ctx):
